@@ -27,7 +27,7 @@ fi
 RES=""
 for C in $CHECKS; do
   LOGF=/tmp/vet/$ID.$C.log
-  (cd ${VERIF_DIR:-/verif} && VERIF_REPO_ROOT=$S PYVC_FN_BUDGET=400 timeout 1800 python3-vt -m pyvc.run $C --norecord 2>&1 | grep -v WARNING > $LOGF)
+  (cd ${VERIF_DIR:-/verif} && VERIF_REPO_ROOT=$S timeout 2700 python3-vt -m pyvc.run $C --norecord 2>&1 | grep -v WARNING > $LOGF)
   R=$( (grep "^$C:" $LOGF; grep "^VIOLATION\|^UNVERIFIABLE\|^UNDECIDED\|^MISSING\|^SELF" $LOGF | head -6) | tr '\n' '|' | cut -c1-1500)
   rm -f $LOGF
   RES="$RES $R"
